@@ -38,6 +38,10 @@ func (db *DB) Association(column string) *Association {
 		association.Error = err
 	}
 
+	// every operation of the handle works on its own copy of the statement: the handle can be kept
+	// and used for several operations
+	association.DB = db.Session(&Session{})
+
 	return association
 }
 
